@@ -293,6 +293,9 @@ impl<const N: usize> Sut<N> {
             s.raw = (0..N).map(|p| self.raw_slot(p)).collect();
             s.len = b.len();
             s.cap = b.capacity();
+            if s.cap != N {
+                panic!("capacity() returns {} for CircularBuffer<{}, _>", s.cap, N);
+            }
             s.is_empty = b.is_empty();
             s.is_full = b.is_full();
             s.iter = b.iter().take(N + 2).map(|e| e.0).collect();
